@@ -131,6 +131,90 @@ Section Save.
       + rewrite H3. destruct r; cbn [sumN]; lia.
   Qed.
 
+  (* ----- error paths before the rename ----- *)
+  Definition fail_tail (fp : failpoint) : list sysop :=
+    match fp with
+    | FPWrite _ => [SFail 2; SClose fd; SUnlink d (p_tmp p)]
+    | FPFsync => [SFail 3; SClose fd; SUnlink d (p_tmp p)]
+    | FPRename => [SFsync fd; SClose fd; SFail 4; SUnlink d (p_tmp p)]
+    end.
+
+  Lemma closed_safe nd sd : state_code g (mkfs [(0%N, nd)] [((d, p_tmp p), 0%N)] [] 1 sd false) = 0.
+  Proof.
+    unfold state_code. cbn [unknown dents alookup]. fold d. rewrite key_ne. cbn [forallb fst snd]. fold d.
+    rewrite key_ne', Htmp_id. reflexivity.
+  Qed.
+
+  Lemma fail_tail_safe fp sz w dirty :
+    run_code g (wst sz w dirty) (fail_tail fp) = 0 /\ dents (run (wst sz w dirty) (fail_tail fp)) = [].
+  Proof.
+    assert (Hclose : forall sz w dirty, step (wst sz w dirty) (SClose fd) =
+              mkfs [(0%N, mkino sz w false dirty)] [((d, p_tmp p), 0%N)] [] 1 [] false).
+    { intros. unfold step, wst. cbn [fds aremove inodes dents next synced_dirs unknown]. rewrite N.eqb_refl. reflexivity. }
+    assert (Hunl : forall nd, step (mkfs [(0%N, nd)] [((d, p_tmp p), 0%N)] [] 1 [] false) (SUnlink d (p_tmp p)) =
+              mkfs [(0%N, nd)] [] [] 1 [] false).
+    { intros. unfold step. cbn [dents aremove inodes fds next synced_dirs unknown undirty filter]. rewrite key_refl. reflexivity. }
+    assert (Hempty : forall nd, state_code g (mkfs [(0%N, nd)] [] [] 1 [] false) = 0) by reflexivity.
+    assert (Hsync : step (wst sz w dirty) (SFsync fd) = wst sz w false).
+    { unfold step, wst. cbn [fds alookup]. rewrite N.eqb_refl. cbn [inodes alookup N.eqb i_size i_written i_bad].
+      unfold aset. cbn [aremove N.eqb]. reflexivity. }
+    destruct fp; cbn [fail_tail run_code run].
+    - change (step (wst sz w dirty) (SFail 2)) with (wst sz w dirty).
+      rewrite wst_safe, Hclose, closed_safe, Hunl, Hempty. split; reflexivity.
+    - change (step (wst sz w dirty) (SFail 3)) with (wst sz w dirty).
+      rewrite wst_safe, Hclose, closed_safe, Hunl, Hempty. split; reflexivity.
+    - rewrite wst_safe, Hsync, wst_safe, Hclose, closed_safe.
+      change (step (mkfs [(0%N, mkino sz w false false)] [((d, p_tmp p), 0%N)] [] 1 [] false) (SFail 4))
+        with (mkfs [(0%N, mkino sz w false false)] [((d, p_tmp p), 0%N)] [] 1 [] false).
+      rewrite closed_safe, Hunl, Hempty. split; reflexivity.
+  Qed.
+
+  (* a failing write / fsync / rename: every prefix is safe and at the end neither the final name nor the
+     temporary file exists — whatever was written so far *)
+  Theorem local_save_fail_safe fp :
+    run_code g fs0 (local_save_fail g p fp) = 0 /\ dents (run fs0 (local_save_fail g p fp)) = [].
+  Proof.
+    unfold local_save_fail. fold d fd.
+    assert (Htail : match fp with
+                    | FPWrite _ => [SFail 2; SClose fd; SUnlink d (p_tmp p)]
+                    | FPFsync => [SFail 3; SClose fd; SUnlink d (p_tmp p)]
+                    | FPRename => [SFsync fd; SClose fd; SFail 4; SUnlink d (p_tmp p)]
+                    end = fail_tail fp) by (destruct fp; reflexivity).
+    rewrite Htail. clear Htail.
+    set (fa := if N.ltb 0 (t_total g)
+               then [match fp with FPWrite true => SFail 7 | _ => SFalloc fd (t_total g) end] else []).
+    assert (Hfa : exists sz0 dirty0, forall t,
+               run_code g (wst 0 0 false) (fa ++ t) = run_code g (wst sz0 0 dirty0) t /\
+               run (wst 0 0 false) (fa ++ t) = run (wst sz0 0 dirty0) t).
+    { unfold fa. destruct (N.ltb 0 (t_total g)); [|exists 0%N, false; intros t; split; reflexivity].
+      assert (Hreal : exists sz0 dirty0, forall t,
+               run_code g (wst 0 0 false) ([SFalloc fd (t_total g)] ++ t) = run_code g (wst sz0 0 dirty0) t /\
+               run (wst 0 0 false) ([SFalloc fd (t_total g)] ++ t) = run (wst sz0 0 dirty0) t).
+      { exists (t_total g), true. intros t. cbn [app run_code run]. rewrite wst_safe.
+        assert (step (wst 0 0 false) (SFalloc fd (t_total g)) = wst (t_total g) 0 true) as ->.
+        { unfold step, wst. cbn [fds alookup]. rewrite N.eqb_refl. cbn [inodes alookup N.eqb i_size i_written i_bad].
+          unfold aset. cbn [aremove N.eqb]. rewrite N.max_r by lia. reflexivity. }
+        split; reflexivity. }
+      destruct fp as [[|]| |]; try exact Hreal.
+      exists 0%N, false. intros t. cbn [app run_code run]. rewrite wst_safe.
+      change (step (wst 0 0 false) (SFail 7)) with (wst 0 0 false). split; reflexivity. }
+    destruct Hfa as (sz0 & dirty0 & Hfa).
+    assert (Hrest : forall t, run_code g (wst 0 0 false) t = 0 /\ dents (run (wst 0 0 false) t) = [] ->
+              run_code g fs0 ((if p_mkdir p then [SFail 1; SMkdir d] else []) ++ [SCreate d (p_tmp p) fd] ++ t) = 0 /\
+              dents (run fs0 ((if p_mkdir p then [SFail 1; SMkdir d] else []) ++ [SCreate d (p_tmp p) fd] ++ t)) = []).
+    { intros t [A B]. assert (Hc : step fs0 (SCreate d (p_tmp p) fd) = wst 0 0 false) by reflexivity.
+      destruct (p_mkdir p); cbn [app run_code run step];
+        assert (state_code g fs0 = 0) as -> by reflexivity; fold (step fs0 (SCreate d (p_tmp p) fd));
+        rewrite Hc; split; assumption. }
+    apply Hrest. destruct (Hfa (map (SWrite fd) (p_chunks p) ++ fail_tail fp)) as [-> ->].
+    destruct (writes_safe (p_chunks p) sz0 0 dirty0) as [W1 (sz' & W2 & _)].
+    destruct (fail_tail_safe fp sz' (0 + sumN (p_chunks p))
+                (match p_chunks p with [] => dirty0 | _ => true end)) as [T1 T2].
+    split.
+    - apply run_code_app; [exact W1 | rewrite W2; exact T1].
+    - rewrite run_app, W2. exact T2.
+  Qed.
+
   Hypothesis Hsum : sumN (p_chunks p) = t_total g.
 
   Theorem local_save_safe :
@@ -138,8 +222,8 @@ Section Save.
   Proof.
     unfold local_save. fold d fd.
     (* mkdir prefix is a no-op *)
-    assert (Hmk : forall t, run_code g fs0 ((if p_mkdir p then [SMkdir d] else []) ++ t) = run_code g fs0 t /\
-                            run fs0 ((if p_mkdir p then [SMkdir d] else []) ++ t) = run fs0 t).
+    assert (Hmk : forall t, run_code g fs0 ((if p_mkdir p then [SFail 1; SMkdir d] else []) ++ t) = run_code g fs0 t /\
+                            run fs0 ((if p_mkdir p then [SFail 1; SMkdir d] else []) ++ t) = run fs0 t).
     { intros t. destruct (p_mkdir p); cbn [app run_code run step]; [|split; reflexivity].
       assert (state_code g fs0 = 0) as -> by reflexivity. split; reflexivity. }
     destruct (Hmk ([SCreate d (p_tmp p) fd] ++ (if N.ltb 0 (t_total g) then [SFalloc fd (t_total g)] else []) ++
@@ -207,6 +291,7 @@ Section Save.
       unfold end_code, D3. cbn [dents alookup synced_dirs]. fold d. rewrite key_refl. cbn [existsb]. fold d.
       rewrite N.eqb_refl. reflexivity.
   Qed.
+
 End Save.
 
 (* ---------- non-vacuity and the mutations the oracle must reject ---------- *)
@@ -216,7 +301,7 @@ Definition ex_g := mktarget 0 (str "aa") 5.
 Definition ex_p := mkparams true (str "aa-tmp-1") 7 7 [3; 2]%N.
 
 Example c36_nonvacuous :
-  run_code ex_g fs0 (local_save ex_g ex_p) = 0%nat /\ List.length (local_save ex_g ex_p) = 12%nat /\
+  run_code ex_g fs0 (local_save ex_g ex_p) = 0%nat /\ List.length (local_save ex_g ex_p) = 13%nat /\
   end_code ex_g (run fs0 (local_save ex_g ex_p)) = 0%nat.
 Proof. vm_compute. repeat split. Qed.
 
@@ -227,4 +312,13 @@ Example c36_rejects_bad_orders :
   run_code ex_g fs0 [SCreate 0 (str "aa-tmp-1") 7; SWrite 7 5; SClose 7; SRename 0 (str "aa-tmp-1") 0 (str "aa")] = 3%nat /\
   run_code ex_g fs0 [SCreate 0 (str "0123456789abcdef0123456789abcdef0123456789abcdef0123456789abcdef") 7] = 4%nat /\
   run_code ex_g fs0 [SCreate 0 (str "aa") 7; SWrite 7 5] = 2%nat.
+Proof. vm_compute. repeat split. Qed.
+
+(* error paths: the model's traces are safe and leave nothing behind; a cleanup that forgets to remove the
+   temporary file is rejected by clause 5 *)
+Example c36_fail_paths :
+  run_code ex_g fs0 (local_save_fail ex_g ex_p (FPWrite true)) = 0%nat /\
+  dents (run fs0 (local_save_fail ex_g ex_p FPRename)) = [] /\
+  fail_end_code ex_g (run fs0 (local_save_fail ex_g ex_p FPFsync)) = 0%nat /\
+  fail_end_code ex_g (run fs0 [SCreate 0 (str "aa-tmp-1") 7; SWrite 7 3; SFail 3; SClose 7]) = 5%nat.
 Proof. vm_compute. repeat split. Qed.
